@@ -83,9 +83,32 @@ def parse(pat):
         if c == ord('\\'):
             d = peek()
             pos[0] += 1
+            if d == ord('d'):
+                return ('set', frozenset(range(0x30, 0x3a)))
             if d is None or chr(d).isalnum():
                 raise RxUnsupported('escape class')
             return ('lit', d)
+        if c == ord('['):
+            items = set()
+            if peek() == ord('^'):
+                raise RxUnsupported('negated class')
+            while peek() is not None and peek() != ord(']'):
+                a = peek()
+                pos[0] += 1
+                if a == ord('\\'):
+                    a = peek()
+                    pos[0] += 1
+                if peek() == ord('-') and pos[0] + 1 < len(pat) and pat[pos[0] + 1] != ord(']'):
+                    pos[0] += 1
+                    b = peek()
+                    pos[0] += 1
+                    items.update(range(a, b + 1))
+                else:
+                    items.add(a)
+            if peek() != ord(']'):
+                raise RxUnsupported('unterminated class')
+            pos[0] += 1
+            return ('set', frozenset(items))
         if c in (ord('['), ord('{'), ord('}'), ord(']'), ord('*'), ord('+'), ord('?'), ord(')')) or c is None:
             raise RxUnsupported('syntax %r' % (chr(c) if c else None))
         return ('lit', c)
@@ -119,6 +142,8 @@ def build(ast, nfa):
     t = ast[0]
     s, e = nfa.new(), nfa.new()
     if t == 'lit':
+        nfa.add_step(s, ast[1], e)
+    elif t == 'set':
         nfa.add_step(s, ast[1], e)
     elif t == 'any':
         nfa.add_step(s, None, e)
@@ -201,6 +226,8 @@ def is_match(pat, insensitive, hay):
     def char_ok(byte, b):
         if byte is None:
             return b_not(S._eqb(b, 0x0a))
+        if isinstance(byte, frozenset):
+            return b_or(*[S._eqb(b, x, fold=insensitive) for x in sorted(byte)])
         return S._eqb(b, byte, fold=insensitive)
 
     matched = False
